@@ -600,6 +600,10 @@ pub fn constructs(body: &[S]) -> Vec<String> {
                 set.insert("mut".into());
                 walk_e(a, set);
             }
+            E::MutInf(_, a) => {
+                set.insert("mut-inferred".into());
+                walk_e(a, set);
+            }
             E::Lambda(_, _, body) => {
                 set.insert("lambda".into());
                 body.iter().for_each(|s| walk_s(s, set));
